@@ -25,7 +25,7 @@ contract("codemodder.codemods.base_visitor.UtilsMixin.results_for_node", props=[
                   ("no results => empty", "implies(not self.results, len(result) == 0)")])
 
 contract("codemodder.codemods.base_visitor.UtilsMixin.filter_by_result", props=["C06"],
-         params={"self": "UtilsMixin", "node": "Opaque"}, returns="bool",
+         params={"self": "UtilsMixin", "node": "Opaque"}, returns="bool", functional=True, reads=["results", "locations"],
          ensures=[("detector-less: vacuous", "implies(self.results is None, result)"),
                   ("with results: some result matches the node",
                    "implies(self.results is not None, iff(result, any(r.match_location(self.node_position(node), node) for r in self.results)))"),
@@ -35,7 +35,8 @@ contract("codemodder.codemods.base_visitor.UtilsMixin.filter_by_result", props=[
 _ONE = "pos_to_match.start.line == pos_to_match.end.line"
 _L = "pos_to_match.start.line"
 contract("codemodder.codemods.base_visitor.UtilsMixin.filter_by_path_includes_or_excludes", props=["C13"],
-         params={"self": "UtilsMixin", "pos_to_match": "CodeRange"}, returns="bool",
+         params={"self": "UtilsMixin", "pos_to_match": "CodeRange"}, returns="bool", functional=True,
+         reads=["line_exclude", "line_include"],
          ensures=[("excluded single-line construct is rejected", f"implies({_ONE} and {_L} in self.line_exclude, not result)"),
                   ("includes given, line not included => rejected",
                    f"implies(len(self.line_exclude) == 0 and len(self.line_include) > 0 and not ({_ONE} and {_L} in self.line_include), not result)"),
@@ -47,10 +48,10 @@ contract("codemodder.codemods.base_visitor.UtilsMixin.filter_by_path_includes_or
          covers=["result", "not result"])
 
 contract("codemodder.codemods.base_visitor.UtilsMixin.node_is_selected", props=["C06", "C13"],
-         params={"self": "UtilsMixin", "node": "Opaque"}, returns="bool",
+         params={"self": "UtilsMixin", "node": "Opaque"}, returns="bool", functional=True,
+         reads=["results", "locations", "line_exclude", "line_include"],
          ensures=[("conjunction of both filters",
-                   "result == (self.filter_by_result(node) and self.filter_by_path_includes_or_excludes(self.node_position(node)))")],
-         covers=["result", "not result"])
+                   "result == (self.filter_by_result(node) and self.filter_by_path_includes_or_excludes(self.node_position(node)))")])
 
 contract("codemodder.codemods.base_visitor.UtilsMixin.lineno_for_node", props=["C13"],
          params={"self": "UtilsMixin", "node": "Opaque"}, returns="int",
